@@ -493,7 +493,7 @@ Definition holds_C19_split (total epochs : Z) (sp : list Z) : bool :=
 Definition holds_C19_trigger (g g' : gauge) (alloc : Z) : bool :=
   let d := g_distributed g' - g_distributed g in
   (0 <=? d) &&
-  (d <=? (if g_triggered g' =? g_triggered g then 0 else alloc)) &&
+  (d <=? (if negb (g_swap g) && (g_triggered g' =? g_triggered g) then 0 else alloc)) &&
   ((g_triggered g' =? g_triggered g) || (g_triggered g' =? g_triggered g + 1)) &&
   (if g_swap g then 0 <=? g_deposit g'
    else (g_distributed g' <=? g_deposit g') && (g_triggered g' <=? g_total g') && (g_deposit g' =? g_deposit g)).
